@@ -435,4 +435,55 @@ theorem text_preserved (P : Nat → Nat → Paras) (R : Rect) (hh : 1 ≤ R.h) (
     · rename_i h; simpa [isEmptyBody] using h
     · rfl
 
+/-! ### "changing a row height or column width keeps the frame size equal to the sum" -/
+
+/-- an accepted assignment: the frame is the sum of the items, the item reads the value, every other item is untouched,
+    and both the value and the sum are writable -/
+theorem setItem_spec (s s' : Sizes) (i : Nat) (v : Int) (h : setItem s i v = some s') :
+    s'.frame = sumL s'.items ∧ s'.items = s.items.set i v ∧ i < s.items.length ∧ coordOk v = true ∧ posOk s'.frame = true := by
+  unfold setItem at h
+  split at h
+  · rename_i hc
+    simp only [] at h
+    split at h
+    · rename_i hp
+      simp only [Option.some.injEq] at h
+      subst h
+      exact ⟨rfl, rfl, hc.1, hc.2, hp⟩
+    · simp at h
+  · simp at h
+
+/-- refused exactly when the index, the value or the resulting total is out of range -/
+theorem setItem_none_iff (s : Sizes) (i : Nat) (v : Int) :
+    setItem s i v = none ↔ ¬ (i < s.items.length ∧ coordOk v = true ∧ posOk (sumL (s.items.set i v)) = true) := by
+  unfold setItem
+  by_cases hc : i < s.items.length ∧ coordOk v = true
+  · simp only [hc, and_self, if_true]
+    by_cases hp : posOk (sumL (s.items.set i v)) = true
+    · simp [hp, hc]
+    · simp [hp]
+  · simp only [hc, if_false, true_iff]
+    intro h; exact hc ⟨h.1, h.2.1⟩
+
+/-- any history of assignments, accepted and refused: the frame equals the sum of the items at every point where it did at
+    the start (a new table: `new_sums`) -/
+theorem runSizes_frame (s : Sizes) (ops : List (Nat × Int)) (h : s.frame = sumL s.items) :
+    (runSizes s ops).frame = sumL (runSizes s ops).items := by
+  unfold runSizes
+  induction ops generalizing s with
+  | nil => exact h
+  | cons op ops ih =>
+    simp only [List.foldl_cons]
+    apply ih
+    unfold stepSizes
+    cases hs : setItem s op.1 op.2 with
+    | none => simpa using h
+    | some s' => simpa using (setItem_spec s s' op.1 op.2 hs).1
+
+/-- a refused assignment changes nothing -/
+theorem stepSizes_refused (s : Sizes) (op : Nat × Int) (h : setItem s op.1 op.2 = none) : stepSizes s op = s := by
+  simp [stepSizes, h]
+
+example : setItem ⟨[500, -1], 499⟩ 0 0 = none ∧ setItem ⟨[500, 500], 1000⟩ 1 (-1) = some ⟨[500, -1], 499⟩ := by decide
+
 end Pptx.C14
